@@ -445,4 +445,7 @@ pub fn run(run: &mut Run) {
     run.sub(&h::<B64, Rp64_256>(true, 5_000, 80_000));
     run.sub(&h::<B64, RpJive64_256>(true, 5_000, 80_000));
     run.sub(&h::<B62, Rp62_248>(true, 2_000, 30_000));
+    run.sub(&crate::c19s::Scripted::<B62>(PhantomData));
+    run.sub(&crate::c19s::Scripted::<B64>(PhantomData));
+    run.sub(&crate::c19s::Scripted::<B128>(PhantomData));
 }
